@@ -120,3 +120,11 @@ func (o *Once) Do(f func()) {
 		f()
 	}
 }
+
+// Pass-through aliases for parts of package sync that are not scheduling points of the explored code (they keep the
+// rewritten sources compiling; a Map or Pool used between goroutines is ordinary data as far as the scheduler goes).
+type (
+	Map    = real.Map
+	Pool   = real.Pool
+	Locker = real.Locker
+)
